@@ -96,6 +96,10 @@ HistNext ==
 -----------------------------------------------------------------------------
 (* C01  escrowed service fees are always exactly backed *)
 
+\* "every legal parameter set": what is in force is legal (the module's validators keep anything else out)
+LegalParams == /\ params.slash >= 0 /\ params.slash <= FScale /\ params.tax >= 0 /\ params.tax < FScale
+               /\ params.maxTimeout > 0 /\ params.multiple > 0 /\ params.minDeposit >= 0
+
 Inv_C01 == bal[REQ] = SumFees(req, actId) + SumEarned(earned)
 Step_C01 == TRUE
 
